@@ -104,13 +104,16 @@ def build(case, mode):
         if i.get('const'):
             kwargs[i['name']] = {'val': arr, 'constant': True}
             continue
-        ivc.add_output(i['name'], val=arr, units=i.get('ivc_units'))
+        if shape == ():
+            ivc.add_output(i['name'], val=float(arr), shape=(), units=i.get('ivc_units'))   # a 0-d VALUE would mean shape (1,)
+        else:
+            ivc.add_output(i['name'], val=arr, units=i.get('ivc_units'))
         decl = i['decl']
         meta = {}
         if decl == 'val':
             meta['val'] = np.ones(shape) * 0.5
         elif decl == 'shape':
-            meta['shape'] = shape if len(shape) > 1 or i.get('tuple_shape') else shape[0]
+            meta['shape'] = shape if len(shape) != 1 or i.get('tuple_shape') else shape[0]
         elif decl == 'sbc':
             meta['shape_by_conn'] = True
         if i.get('units') is not None and case['opts'].get('units') is None:
@@ -209,6 +212,8 @@ def check(case):
     shapes = [tuple(i['shape']) for i in case['ins']] + [tuple(o['shape']) for o in case['outs']]
     if any(len(s) == 2 for s in shapes):
         cls.append('matrix')
+    if any(len(s) == 0 for s in shapes):
+        cls.append('shape0d')
     f1 = known_diag_array_to_scalar(case)
     pre = 'F-C14-1|' if f1 else ''
 
@@ -387,7 +392,7 @@ def strategy(tier):
             name = names.pop()
             a, b = draw_vals(shape)
             inp = {'name': name, 'shape': list(shape)}
-            if allow_const and draw(st.integers(0, 7)) == 0:
+            if allow_const and tuple(shape) != () and draw(st.integers(0, 7)) == 0:
                 inp.update(const=True, ivc_val=a, decl='val')
                 return inp
             factor, units, ivc_units = 1.0, None, None
@@ -401,6 +406,8 @@ def strategy(tier):
             d = list(decls)
             if tuple(shape) == (1,):
                 d += ['default', 'default']
+            if tuple(shape) == ():
+                d = ['shape']               # a true 0-d variable can only be declared through shape=()
             inp['decl'] = pick(d)
             if inp['decl'] == 'val':
                 inp['bare'] = draw(st.booleans())
@@ -423,7 +430,7 @@ def strategy(tier):
         if family == 'general':
             n = pick([2, 3, 4])
             m = pick([2, 3])
-            pool = [(1,), (n,), (n,), (m, n), (n, m), (n + 1,), (m,), (m, m)]
+            pool = [(1,), (n,), (n,), (m, n), (n, m), (n + 1,), (m,), (m, m), ()]
             nin = pick([1, 2, 2, 3, 3, 4])
             for _ in range(nin):
                 ins.append(mk_input(pick(pool), allow_const=len(ins) > 0))
@@ -441,7 +448,10 @@ def strategy(tier):
                     ast = ['b', '+', ast, ['r', 'sum', ['u', 'sin', ['v', live[0]]]]]
                     g.note('sum')
                 oshape = tgt if tgt != () else (1,)
-                outs.append({'name': names.pop(), 'ast': ast, 'shape': list(oshape), 'used': sorted(g.used)})
+                out = {'name': names.pop(), 'ast': ast, 'shape': list(oshape), 'used': sorted(g.used)}
+                if tgt == () and draw(st.integers(0, 2)) == 0:
+                    out.update(shape=[], decl='shape')      # 0-d output
+                outs.append(out)
             opts['do_coloring'] = pick([True, True, False])
         else:
             S = pick([(2,), (3,), (4,), (5,), (2, 2), (2, 3)])
@@ -531,8 +541,8 @@ def strategy(tier):
 
 
 def units(tier, seed):
-    n = 8 if tier == 'quick' else 32
-    per = 160 if tier == 'quick' else 1900
+    n = 4 if tier == 'quick' else 32
+    per = 400 if tier == 'quick' else 1900
     return [{'kind': 'random', 'n': per, 'seed': core.shard_seed(seed, ID, i)} for i in range(n)]
 
 
